@@ -4,6 +4,7 @@ val(op) gives a canonical string for an operand so that two reads of "the same t
 (e.g. self.strings.len() in a guard and the Vec indexed later) compare equal.
 Mutation of the underlying place between guard and use is NOT tracked (stated assumption:
 guards and uses in this code base are adjacent; every use of this module names the guard found)."""
+import re
 from . import cfg
 from .flow import DefUse, is_place
 
@@ -42,7 +43,7 @@ class Sym:
                     return "static:%s" % op["static"]
                 txt = op.get("txt", "?")
                 if "::promoted[" in txt:
-                    pf = self.prog.promoted.get(self.fn.name + txt[txt.rindex("::promoted["):])
+                    pf = self.prog.promoted.get(self.fn.crate + "::" + txt) or self.prog.promoted.get(self.fn.name + txt[txt.rindex("::promoted["):])
                     if pf is not None and depth < 20:
                         ps = Sym(self.prog, pf)
                         return ps.local(0, depth + 1)
@@ -96,6 +97,10 @@ class Sym:
         if kind == "call":
             name = payload.get("resolved") or payload.get("callee") or "?"
             cal = payload.get("callee") or name
+            mconv = re.search(r"convert::num::<impl std::convert::From<(\w+)> for (\w+)>::from$", name)
+            if mconv and len(payload["args"]) == 1:
+                # lossless integer widening: same value as an `as` cast
+                return "(%s as %s)" % (self.val(payload["args"][0], depth + 1), mconv.group(2))
             if any(name.endswith(s) or cal.endswith(s) or (s + "::<") in name for s in PURE):
                 args = ",".join(self.val(a, depth + 1) for a in payload["args"])
                 return "%s(%s)" % (_short(cal if "::Index" in cal else name), args)
